@@ -14,6 +14,11 @@ import (
 // and the last typedef's units), the same closed into a cycle (an error), and three-level chains
 // whose names are padded to every length from 4 to 300 bytes.
 
+func init() {
+	// the oracle of this shape compares with the path as written, prefixes included
+	scalekit.NoCross["long-arguments"] = true
+}
+
 func scaleCases(tier string) []scalekit.Case {
 	var out []scalekit.Case
 	for _, n := range scale.Sizes(70, 257) {
